@@ -185,20 +185,24 @@ Q(id='C01.kalign_run', props=['C01', 'C04', 'C03'], cls='B', harness='c01_run.c'
 # =========================================================================== C07 / C08 kernels
 def _kernel_shapes(tier):
     out = []
-    rows = [1] if tier == 'quick' else [1, 2]
-    lbs = [2] if tier == 'quick' else [2, 3]
+    rows = [1, 2] if tier == 'quick' else [1, 2, 3]
+    lbs = [2, 3] if tier == 'quick' else [2, 3, 4]
+    psets = [0, 2] if tier == 'quick' else [0, 1, 2]
     for r in rows:
         for lb in lbs:
             for sb in (0, 1):
                 for eb in (lb - 1, lb):
                     if eb - sb < 1:
                         continue
-                    out.append(dict(name='rows%d_lb%d_sb%d_eb%d' % (r, lb, sb, eb), defs=dict(KV_ROWS=r, KV_LB=lb, KV_SB=sb, KV_EB=eb)))
+                    for ps in psets:
+                        for ins in (0, 1, 2):
+                            out.append(dict(name='rows%d_lb%d_sb%d_eb%d_p%d_in%d' % (r, lb, sb, eb, ps, ins),
+                                            defs=dict(KV_ROWS=r, KV_LB=lb, KV_SB=sb, KV_EB=eb, KV_PSET=ps, KV_IN=ins)))
     return out
-A_KFLOAT = 'penalties in [0,1000], substitution scores in [-1000,1000], boundary states -FLT_MAX or in [-1e5,1e5] (no overflow to infinity, no NaN)'
+A_KFLOAT = 'parameters concrete (dna, internal and a 3x3 corner of CorBLOSUM66_13plus with their penalties), boundary state one of the three unit vectors the recursion uses, residues symbolic (fully symbolic floats made a 1x2 rectangle run > 20 min)'
 Q(id='C07.seqseq.fwd_ref', props=['C07', 'C08'], cls='B', harness='c07_seqseq.c', entry='h_c07_fwd_ref', shapes=_kernel_shapes,
   mode='wrap', unwind=8, timeout=1500, funcs=['aln_seqseq_foward'], trusted=[TRUST_MSG],
-  assumptions=[A_FLOAT, A_KFLOAT, A_WRAP, 'bounded: rectangles of 1 (thorough 1-2) rows x 2 (thorough 2-3) columns, every start/end-of-b combination, 3 residue codes with a symbolic 3x3 matrix (2x3 rectangles take > 20 min each)'],
+  assumptions=[A_FLOAT, A_KFLOAT, A_WRAP, 'bounded: rectangles of 1-2 (thorough 1-3) rows x 2-3 (thorough 2-4) columns, every start/end-of-b combination, 3 residue codes'],
   native_srcs=['lib/src/tldevel.c'])
 Q(id='C07.seqseq.bwd_mirror', props=['C07', 'C08'], cls='B', harness='c07_seqseq.c', entry='h_c07_bwd_mirror', shapes=_kernel_shapes, defs=['-DKV_ENTRY_MIRROR'],
   mode='wrap', unwind=8, timeout=1500, funcs=['aln_seqseq_backward', 'aln_seqseq_foward'], trusted=[TRUST_MSG],
@@ -410,10 +414,10 @@ Q(id='C11.bpm_block', props=['C11', 'C12'], cls='B', harness='c11_bpm_block.c', 
 # =========================================================================== C16 lifecycle
 C16_SRCS = ['lib/src/msa_alloc.c', 'lib/src/msa_op.c', 'lib/src/alphabet.c', 'lib/src/task.c', 'lib/src/aln_mem.c', 'lib/src/aln_param.c']
 Q(id='C16.arr_to_msa', props=['C16', 'C05', 'C03'], cls='B', harness='c16_lifecycle.c', entry='h_c16_arr_to_msa',
-  mode='wrap', unwind=8, unwindset={'vsnprintf.0': 260, 'vsnprintf.1': 260}, timeout=900, leak_check=True, object_bits=10, loops_files=['msa_alloc.shrink.loops'], shrink=True, defs=['-DKV_CAP=2', '-DKV_SEQCAP=2'],
+  mode='wrap', unwind=8, timeout=900, leak_check=True, object_bits=10, loops_files=['msa_alloc.shrink.loops'], shrink=True, defs=['-DKV_CAP=2', '-DKV_SEQCAP=2'],
   funcs=['kalign_arr_to_msa', 'detect_alphabet', 'detect_aligned', 'set_sip_nsip', 'kalign_free_msa'],
   srcs=C16_SRCS, native_srcs=['lib/src/tldevel.c'] + C16_SRCS,
-  trusted=[TRUST_MSG, A_LOG], assumptions=[A_NOFAIL, A_WRAP, 'bounded: 2 sequences of 2 and 3 letters; array-API precondition: residues are ASCII letters',
+  trusted=[TRUST_MSG, A_LOG, 'snprintf: assumed contract stub (writes a NUL-terminated string shorter than size)'], assumptions=[A_NOFAIL, A_WRAP, 'bounded: 2 sequences of 2 and 3 letters; array-API precondition: residues are ASCII letters',
                                           'native replay runs under ASan, whose malloc fills fresh memory with 0xbe: an uninitialised name shows as an unterminated string'])
 Q(id='C16.alloc_pairs', props=['C16', 'C05'], cls='B', harness='c16_lifecycle.c', entry='h_c16_alloc_pairs',
   mode='wrap', unwind=8, timeout=900, leak_check=True, object_bits=10, loops_files=['msa_alloc.shrink.loops'], shrink=True, defs=['-DKV_CAP=2', '-DKV_SEQCAP=2', '-DKV_ENTRY_PAIRS'],
